@@ -87,6 +87,24 @@ def feature_programs(kskel, names=None):
                         yield c
 
 
+def try_family():
+    L = [('bind', 'a'), ('use', 'a'), ('bind', 'b'), ('mov', 'a', 'b')]
+    FB = [()] + [(l,) for l in L] + [(('if', (l,), ()),) for l in L]
+    for body in L:
+        for fb in FB[1:]:
+            for tail in (('use', 'a'), ('use', 'b')):
+                yield (('try', 'nohandler', (body,), None, (), (), fb), tail)
+        for hb in L:
+            for eb in [()] + [(l,) for l in L]:
+                for fb in FB:
+                    if not eb and not fb:
+                        continue          # the k<=4 core has these
+                    for rz in ('both', 'first', 'last'):
+                        for hn in (None, 'b'):
+                            for tail in (('use', 'a'), ('use', 'b')):
+                                yield (('try', rz, (body,), hn, (hb,), eb, fb), tail)
+
+
 def space(tier):
     """The full, deterministic list of programs for a tier: (origin, prog)."""
     global _SPACE
@@ -110,6 +128,10 @@ def space(tier):
     for body in ps.blocks(4, 1, False, True, False):
         if ps.has_read(body) and any(x[0] == 'ret' for x in ps.walk(body)):
             out.append(('ret5', (('def', body), ('callf',))))
+    # try statements need 5-7 nodes to put a binding into body, handler, else and finally at once
+    for p in try_family():
+        if p not in core:
+            out.append(('try6', p))
     for p in ps.programs(kctl, 2, ctl=True):
         if p not in core:
             out.append(('ctl', p))
@@ -162,7 +184,7 @@ def run_names(ctx, prop):
         'rule': 'every program of the bounded grammar (core k/d bounds, control-flow leaves, one substituted feature) '
                 'and EVERY CPython execution of it (branch outcomes, 0..2 loop trips, raise decisions); distinct_nontrivial = programs '
                 'with a read that has >=2 reaching sites or a maybe-unbound path',
-        'space': {o: int(c['programs_' + o]) for o in ('core', 'core-d3', 'ret5', 'ctl', 'feat') if c['programs_' + o]},
+        'space': {o: int(c['programs_' + o]) for o in ('core', 'core-d3', 'ret5', 'try6', 'ctl', 'feat') if c['programs_' + o]},
         'features': sorted(features.FEATURES),
         'reads': int(c['reads']),
         'checked': {k: int(v) for k, v in c.items() if k.startswith('c0')},
